@@ -4,8 +4,9 @@ SPEC = {
     "lean_modules": ["PallasVerif.Props.C43"],
     "required_theorems": ["blocks_within_file", "secondary_never_seeks_back", "fixed_refines_unfixed_chunk",
                           "fixed_refines_unfixed_secondary", "unfixed_chunk_panics_at_witness",
-                          "unfixed_secondary_panics_at_witness", "unfixed_allocates_beyond_file_at_witness", "intact_slicing"],
-    "streams": [{"name": "immcorrupt", "quick": 50, "thorough": 1500, "timeout": 3000}],
+                          "unfixed_secondary_panics_at_witness", "unfixed_allocates_beyond_file_at_witness", "intact_slicing",
+                          "intact_roundtrip"],
+    "streams": [{"name": "immcorrupt", "quick": 50, "thorough": 1200, "timeout": 3000}],
     "rule": "fault enumeration: for base chunks of 1..6 tiny synthetic blocks (chunk::read_blocks does not decode; empty blocks and "
             "empty relative slots included) EVERY truncation length of the primary, of the secondary and of the chunk file (quick: "
             "2 bases ~ 400 files; thorough: 12); then per generated case an intact chunk followed by 3..8 damaged copies: a "
